@@ -13,7 +13,7 @@ import warnings
 # "Task exception was never retrieved" is expected noise when a sibling coroutine callback raises
 logging.getLogger("asyncio").setLevel(logging.CRITICAL)
 
-POOL = ["go", "go_back", "g", "run", "run_2", "tick", "t", "loop"]
+POOL = ["go", "go_back", "g", "run", "run_2", "tick", "t", "transition"]     # (index 7: see engfam.post_C02)
 
 
 class UserErr(Exception):
@@ -83,9 +83,24 @@ class UserNotImpl(NotImplementedError):
         self.code = code
 
 
+class UserFalsy(Exception):
+    """an exception object that evaluates as false (e.g. an error collection raised while empty)"""
+
+    def __init__(self, code):
+        super().__init__(code)
+        self.code = code
+
+    def __bool__(self):
+        return False
+
+    def __len__(self):
+        return 0
+
+
 # exceptions a callback may raise that derive from classes Python or asyncio themselves give a meaning to:
 # they must escape like any other exception of a callback
-EXC_CLASSES = {"runtime": UserRuntime, "attr": UserAttr, "key": UserKey, "type": UserType, "notimpl": UserNotImpl}
+EXC_CLASSES = {"runtime": UserRuntime, "attr": UserAttr, "key": UserKey, "type": UserType, "notimpl": UserNotImpl,
+               "falsy": UserFalsy}
 
 
 def user_exception(sc, code, sync_only_ok=True):
@@ -127,7 +142,14 @@ class AnyEq(Opq):
     __hash__ = Opq.__hash__
 
 
+# undeclared event names that are names of other attributes of the machine (state ids, reserved words, ...)
+SPECIAL_NAMES = {800: "s0", 801: "model", 802: "current_state", 803: "states", 804: "send", 805: "u1",
+                 806: "allowed_events", 807: "s1", 808: "current_state_value", 809: "add_listener"}
+
+
 def evname(e):
+    if e in SPECIAL_NAMES:
+        return SPECIAL_NAMES[e]
     return POOL[e] if e < len(POOL) else f"zz{e}"
 
 
@@ -135,6 +157,9 @@ def evidx(name):
     name = str(name)
     if name == "__initial__":
         return None
+    for k_, v_ in SPECIAL_NAMES.items():
+        if v_ == name:
+            return k_
     if name in POOL:
         return POOL.index(name)
     if name.startswith("zz"):
@@ -440,6 +465,9 @@ def render_source(sc):
         n_any = sc["any_group"]
         sc = dict(sc, trans=sc["trans"][:-n_any], any_render=sc["trans"][-1], any_group=0,
                   mixed=(sc["mixed"][:-n_any] if sc.get("mixed") else sc.get("mixed")))
+    ext_ev = sc.get("extend_event")          # an event the SUBCLASS adds to every inherited transition
+    if ext_ev is not None:
+        sc = dict(sc, trans=[dict(t, ev=[e for e in t["ev"] if e != ext_ev]) for t in sc["trans"]], inherit=True)
     gn = guard_names(sc)
     acoros = {tuple(x) for x in sc.get("async", [])}
     out = ["from statemachine import State, StateMachine",
@@ -481,8 +509,11 @@ def render_source(sc):
 
     callables_ = {tuple(nm) for nm in sc.get("callable_names", [])}    # passed as function objects, not by name
 
+    bound_refs = bool(sc.get("bound_refs"))      # the function objects are bound methods of a helper object
+
     def names(l):
-        return "[" + ", ".join(("fn_" + cbname(nm)) if tuple(nm) in callables_ else repr(cbname(nm)) for nm in l) + "]"
+        return "[" + ", ".join((("EXT." if bound_refs else "") + "fn_" + cbname(nm)) if tuple(nm) in callables_
+                               else repr(cbname(nm)) for nm in l) + "]"
 
     style = sc.get("evstyle", "str")          # how events are attached: str / list / obj / assign / event_ctor
     tstyle = sc.get("tstyle", "to")           # how transitions are created: to / from / multi / multi_from
@@ -531,15 +562,18 @@ def render_source(sc):
             # an IntEnum whose first member is 0 (falsy), with an alias of that member
             pre.append("from enum import IntEnum")
             pre.append("class SE(IntEnum):")
+            base_ = sc["finals"][0] if sc["finals"] else 0       # a final state (if any) is the member with value 0
             for i in range(sc["n"]):
-                pre.append(f"    s{i} = {i}")
-            pre.append("    zz_alias = 0")
+                pre.append(f"    s{i} = {(i - base_) % sc['n']}")
+            pre.append(f"    zz_alias = 0")
         else:
             pre.append("from enum import Enum")
             pre.append("class SE(Enum):")
             for i in range(sc["n"]):
                 pre.append(f"    s{i} = {i + 1}")
         fin = "[" + ", ".join(f"SE.s{i}" for i in sc["finals"]) + "]"
+        if len(sc["finals"]) == 1:
+            fin = f"SE.s{sc['finals'][0]}"          # a single member instead of a list
         body.append(f"    states = States.from_enum(SE, initial=SE.s{sc['initial']}, final={fin})")
     used_events = sorted({e for t in sc["trans"] for e in t["ev"]})
     if style == "obj":
@@ -689,6 +723,13 @@ def render_source(sc):
                 p_, (kind_, k_) = 0, decor_ev[1]
                 body.append(f"    @({tl_})")
                 body.append(f"    def {evname(e)}(self, **kw): return _cb({p_}, {kind_}, {k_}, False, kw)")
+            elif sc.get("ior") and " | " in tl_:
+                # built up with the augmented operator: `go = tr0` then `go |= tr3` (tr0 itself must stay as it is:
+                # other events may name it too)
+                parts_ = tl_.split(" | ")
+                body.append(f"    {evname(e)} = {parts_[0]}")
+                for p_ in parts_[1:]:
+                    body.append(f"    {evname(e)} |= {p_}")
             else:
                 body.append(f"    {evname(e)} = {tl_}")
         emit_decorated()
@@ -714,17 +755,32 @@ def render_source(sc):
     if "States" in imports:
         pre.insert(0, "from statemachine.states import States")
     out += pre
+    if bound_refs and callables_:
+        out.append("class Ext:")
+        out.append("    def _mine(self):")
+        out.append("        if self is not EXT: raise AssertionError('callback invoked on a copy of the object it belongs to')")
     for nm in sorted(callables_):
-        if (0, nm[0], nm[1]) in acoros:
+        if bound_refs:
+            if (0, nm[0], nm[1]) in acoros:
+                out.append(f"    async def fn_{cbname(list(nm))}(self, **kw): self._mine(); return await _acb(0, {nm[0]}, {nm[1]}, {nm in gn}, kw)")
+            else:
+                out.append(f"    def fn_{cbname(list(nm))}(self, **kw): self._mine(); return _cb(0, {nm[0]}, {nm[1]}, {nm in gn}, kw)")
+        elif (0, nm[0], nm[1]) in acoros:
             out.append(f"async def fn_{cbname(list(nm))}(**kw): return await _acb(0, {nm[0]}, {nm[1]}, {nm in gn}, kw)")
         else:
             out.append(f"def fn_{cbname(list(nm))}(**kw): return _cb(0, {nm[0]}, {nm[1]}, {nm in gn}, kw)")
+    if bound_refs and callables_:
+        out.append("EXT = Ext()")
     if inherit:
         out.append("class Base(StateMachine):")
         out += body
         out.append("")
         out.append("class M(Base):")
-        if alias:
+        if ext_ev is not None:
+            srcs = sorted({t["s"] for t in sc["trans"]})
+            out.append(f"    {evname(ext_ev)} = " + " | ".join(f"Base.s{i}.transitions" for i in srcs)
+                       + "      # one more event for every inherited transition")
+        elif alias:
             for e in used_events:
                 out.append(f"    {evname(e)} = Base.x_{evname(e)}      # an inherited event under a new name")
         else:
@@ -846,6 +902,8 @@ def render_source(sc):
             out.append("    def __eq__(self, other): return getattr(other, '_grp', None) == self._grp")
             out.append("    def __hash__(self): return hash(self._grp)" if grp != 2 else
                        "    __hash__ = None      # (like a dataclass with eq=True that is not frozen)")
+        if p in (sc.get("falsy_listeners") or []):
+            out.append("    def __len__(self): return 0      # a listener object that evaluates as false")
         out += methods(p, sc["provs"][p])
     if sc.get("sig_attr"):
         # every callback function carries an explicit __signature__ (as signature-preserving decorators and
@@ -946,6 +1004,15 @@ def call_style(sm, style, name, tag, ns):
         sm.bind_events_to(other)
         if hasattr(other, name):
             return getattr(other, name)(tag=tag)
+        return sm.send(name, tag=tag)
+    if style == "bound3":                     # several targets in one call; the first one already has an attribute of that name
+        first, second = _Other(), _Other()
+        setattr(first, name, "taken")
+        with warnings.catch_warnings():
+            warnings.simplefilter("ignore")     # (the clash on `first` is reported by a warning and skipped)
+            sm.bind_events_to(first, second)
+        if hasattr(second, name) or str(name) in [str(e) for e in sm.events]:
+            return getattr(second, name)(tag=tag)
         return sm.send(name, tag=tag)
     if style == "bound2":                     # ... onto an object that another machine binds its triggers onto afterwards
         other = _Other()
